@@ -155,7 +155,7 @@ func hashableBasic(t types.Type) bool {
 }
 
 func C07(c *Ctx) {
-	c.R.Explanation = "Decides structural necessary conditions of 'processing never crashes the host' over core, match and the interpreters: (R1) a frozen table of values the API contract allows to be nil (no Control; absent bindings; the Execution returned with an error; null bindings; null nodes/branches while loading; absent action/guard source for native actions; absent branching) — every dereferencing use reachable through copies, phis, variables and static calls is dominated by a nil test of that value / field path or by the err==nil edge of the producing call; (R2) every comma-less type assertion is dominated by a successful test of the same value and type (infeasible blocks pruned); (R3) make sizes that are not constants or lengths are bounded below; (R4) the goja program runs only under a deferred recover and explicit panics reachable from Exec lie in functions that are only called from the script runtime; (R5) no error result is dropped in core/match/ecmascript except the enumerated infallible calls, and Walk turns a Step error into the error-node transition; (R6) values used as keys of interface-keyed maps are guarded by a test for a hashable type; (R7) recursive engine functions are never applied to values that come straight from the script runtime (which may be cyclic); (R8) the processing functions dereference nodes and branches of a compiled spec without a test, so Compile must establish that there are none: from the nil edge of every node value and branch element Compile visits, the store that marks the spec compiled is unreachable unless the null was first replaced by a fresh value in the spec itself, and Compile visits the branches of every node. Panics inside goja/std, stack exhaustion on deep JSON and index bounds are not decided."
+	c.R.Explanation = "Decides structural necessary conditions of 'processing never crashes the host' over core, match and the interpreters: (R1) a frozen table of values the API contract allows to be nil (no Control; absent bindings; the Execution returned with an error; null bindings; null nodes/branches while loading; absent action/guard source for native actions; absent branching) — every dereferencing use reachable through copies, phis, variables and static calls is dominated by a nil test of that value / field path or by the err==nil edge of the producing call; (R2) every comma-less type assertion is dominated by a successful test of the same value and type (infeasible blocks pruned); (R3) make sizes that are not constants or lengths are bounded below; (R4) the goja program runs only under a deferred recover, explicit panics reachable from Exec lie in functions that are only called from the script runtime, every other call from host-side interpreter code into goja (exporting a value runs getters) is dominated by a deferred recover, and no error return of Exec carries the error value a goja Run* call produced (its text runs the thrown object's toString); (R5) no error result is dropped in core/match/ecmascript except the enumerated infallible calls, and Walk turns a Step error into the error-node transition; (R6) values used as keys of interface-keyed maps are guarded by a test for a hashable type; (R7) recursive engine functions are never applied to values that come straight from the script runtime (which may be cyclic), and such a value is handed to fmt/log only under %T; (R8) the processing functions dereference nodes and branches of a compiled spec without a test, so Compile must establish that there are none: from the nil edge of every node value and branch element Compile visits, the store that marks the spec compiled is unreachable unless the null was first replaced by a fresh value in the spec itself, and Compile visits the branches of every node. Panics inside goja/std, stack exhaustion on deep JSON and index bounds are not decided."
 	c.R.Rule("C07-R1", "E2", "nil contract", 12)
 	c.R.Rule("C07-R2", "E2", "type assertions are checked", 3)
 	c.R.Rule("C07-R3", "E2", "allocation sizes bounded below", 1)
@@ -632,6 +632,160 @@ func c07Recover(c *Ctx) {
 			c.R.Check(onlyWorld(f), "C07-R4", fmt.Sprintf("%s: panic #%d only under the runtime's recover", fname(f), np), c.pos(in), "the function is only called from the script runtime (inside RunProgram)", "an explicit panic is reachable from Exec outside the script runtime's recover")
 		})
 	}
+	// ---- every entry into the script runtime from host-side code is under a deferred recover
+	// (exporting a value runs getters, an exception's text runs the thrown object's toString)
+	hasRecoverBefore := func(f *ssa.Function, at *ssa.BasicBlock) bool {
+		rec := false
+		ssau.Instrs(f, func(in2 ssa.Instruction) {
+			d, ok := in2.(*ssa.Defer)
+			if !ok || !d.Block().Dominates(at) {
+				return
+			}
+			var fn *ssa.Function
+			if mc, ok := d.Call.Value.(*ssa.MakeClosure); ok {
+				fn = mc.Fn.(*ssa.Function)
+			} else if sf, ok := d.Call.Value.(*ssa.Function); ok {
+				fn = sf
+			}
+			if fn == nil {
+				return
+			}
+			ssau.Instrs(fn, func(in3 ssa.Instruction) {
+				if c3, ok := in3.(ssa.CallInstruction); ok {
+					if b, ok := c3.Common().Value.(*ssa.Builtin); ok && b.Name() == "recover" {
+						rec = true
+					}
+				}
+			})
+		})
+		return rec
+	}
+	// calls into goja that cannot run script code
+	inert := map[string]bool{
+		gojaRuntime + ".New": true, gojaRuntime + ".Compile": true, gojaRuntime + ".MustCompile": true, gojaRuntime + ".Parse": true,
+		"(*" + gojaRuntime + ".Runtime).Set": true, "(*" + gojaRuntime + ".Runtime).Interrupt": true, "(*" + gojaRuntime + ".Runtime).ClearInterrupt": true,
+	}
+	isGojaType := func(t types.Type) bool {
+		if pt, ok := t.(*types.Pointer); ok {
+			t = pt.Elem()
+		}
+		n, ok := t.(*types.Named)
+		return ok && n.Obj().Pkg() != nil && n.Obj().Pkg().Path() == gojaRuntime
+	}
+	// errors that come out of the runtime
+	rawErr := map[ssa.Value]bool{}
+	ne := 0
+	for _, f := range fl {
+		if prog.PkgOf(f) != "interpreters/ecmascript" || onlyWorld(f) {
+			continue
+		}
+		ssau.Instrs(f, func(in ssa.Instruction) {
+			ci, ok := in.(ssa.CallInstruction)
+			if !ok {
+				return
+			}
+			com := ci.Common()
+			name := ssau.CalleeName(ci)
+			enters := false
+			switch {
+			case com.IsInvoke():
+				enters = isGojaType(com.Value.Type())
+			case com.StaticCallee() != nil && com.StaticCallee().Pkg != nil && com.StaticCallee().Pkg.Pkg.Path() == gojaRuntime:
+				enters = !inert[name]
+			}
+			if strings.HasPrefix(name, "(*"+gojaRuntime+".Runtime).Run") {
+				if cl, isCall := in.(*ssa.Call); isCall {
+					if ex := callResults(cl)[1]; ex != nil {
+						rawErr[ex] = true
+					}
+				}
+				return // decided above ("program runs under recover")
+			}
+			if !enters {
+				return
+			}
+			ne++
+			if name == "" {
+				name = com.Method.FullName()
+			}
+			c.R.Check(hasRecoverBefore(f, in.Block()), "C07-R4", fmt.Sprintf("%s: %s #%d under recover", fname(f), name, ne), c.pos(in), "a deferred recover dominates the call",
+				"host-side code calls into the script runtime ("+name+") without a deferred recover: exporting or printing a script value runs script code (getters, toString) that can throw, and the panic crashes the host")
+		})
+	}
+	// an error value produced by the runtime carries script objects: its Error() runs toString.  It must not leave Exec as is.
+	scope := []*ssa.Function{exec}
+	for _, f := range fl {
+		if prog.PkgOf(f) == "interpreters/ecmascript" && f != exec {
+			scope = append(scope, f)
+		}
+	}
+	nr := 0
+	for _, b := range exec.Blocks {
+		ret, ok := b.Instrs[len(b.Instrs)-1].(*ssa.Return)
+		if !ok || len(ret.Results) != 2 {
+			continue
+		}
+		if provablyNil(ret.Results[1], b) {
+			continue
+		}
+		nr++
+		raw := ""
+		// typeFacts: the types T for which `val.(T)` is known to hold / not to hold at block blk
+		typeFacts := func(blk *ssa.BasicBlock, val ssa.Value, pol bool) map[string]bool {
+			out := map[string]bool{}
+			for _, f := range flow.FactsAt(blk) {
+				ex, ok := f.Cond.(*ssa.Extract)
+				if !ok || ex.Index != 1 || f.True != pol {
+					continue
+				}
+				if ta, ok := ex.Tuple.(*ssa.TypeAssert); ok && ta.CommaOk && ta.X == val {
+					out[ta.AssertedType.String()] = true
+				}
+			}
+			return out
+		}
+		notAtReturn := typeFacts(b, ret.Results[1], false)
+		for _, da := range phiEdgesWithBlocks(ret.Results[1], b) {
+			hit := ""
+			for _, d := range deepDefs(da.v, scope) {
+				if rawErr[d] {
+					hit = c.posv(d)
+				}
+			}
+			if hit == "" {
+				continue
+			}
+			// the raw error is passed on only where it is known to be of a type that is excluded at the return
+			excluded := false
+			for t := range typeFacts(da.b, da.v, true) {
+				if notAtReturn[t] {
+					excluded = true
+				}
+			}
+			// ... or on the very edge that carries it into the returned phi
+			if ph, isPhi := ret.Results[1].(*ssa.Phi); isPhi {
+				for i, e := range ph.Edges {
+					if e != da.v || ph.Block().Preds[i] != da.b {
+						continue
+					}
+					for _, f := range flow.EdgeFacts(da.b, ph.Block()) {
+						ex, ok := f.Cond.(*ssa.Extract)
+						if !ok || ex.Index != 1 || !f.True {
+							continue
+						}
+						if ta, ok := ex.Tuple.(*ssa.TypeAssert); ok && ta.CommaOk && ta.X == da.v && notAtReturn[ta.AssertedType.String()] {
+							excluded = true
+						}
+					}
+				}
+			}
+			if !excluded {
+				raw = hit
+			}
+		}
+		c.R.Check(raw == "", "C07-R4", fmt.Sprintf("Exec: error return #%d carries no script object", nr), c.pos(ret), "the error is a plain Go error (made from text obtained under recover) or a package sentinel",
+			"Exec returns the runtime's own error value ("+raw+"): a *goja.Exception holds the thrown script object, and core calls Error() on it outside any recover — a throwing toString crashes the host")
+	}
 }
 
 // c07Errors: dropped errors.
@@ -887,6 +1041,86 @@ func c07Recursion(c *Ctx) {
 		c.R.Check(len(bad) == 0, "C07-R7", fname(f)+": recursion over canonicalised values only", c.P.Pos(f.Pos()), "no parameter can hold an un-canonicalised script value", strings.Join(bad, "; ")+" (a cyclic script value would recurse without bound)")
 	}
 	c.R.Extra["recursive_functions_in_exec_closure"] = nrec
+	// formatting is recursion too: a raw script value handed to fmt/log is walked by every verb except %T
+	nf := 0
+	for _, f := range fl {
+		if prog.PkgOf(f) != "interpreters/ecmascript" {
+			continue
+		}
+		ssau.Instrs(f, func(in ssa.Instruction) {
+			cl, ok := in.(*ssa.Call)
+			if !ok || cl.Common().StaticCallee() == nil || cl.Common().StaticCallee().Pkg == nil {
+				return
+			}
+			sc := cl.Common().StaticCallee()
+			pk := sc.Pkg.Pkg.Path()
+			if pk != "fmt" && pk != "log" {
+				return
+			}
+			sig := sc.Signature
+			if !sig.Variadic() {
+				return
+			}
+			vi := sig.Params().Len() - 1
+			if sig.Recv() != nil {
+				vi++
+			}
+			// the format string, if the parameter before the variadic one is a constant string
+			var verbs []string
+			haveFmt := false
+			if vi >= 1 && vi-1 < len(cl.Common().Args) {
+				if fs, isS := ssau.ConstString(cl.Common().Args[vi-1]); isS && strings.HasSuffix(sc.Name(), "f") {
+					verbs, haveFmt = fmtVerbs(fs), true
+				}
+			}
+			for i := int64(0); i < 16; i++ {
+				arg := varargAt(cl, vi, i)
+				if arg == nil {
+					break
+				}
+				raw := false
+				for _, l := range a.PointsTo(arg) {
+					if l.Obj.Kind == pta.KWorld {
+						raw = true
+					}
+				}
+				if !raw {
+					continue
+				}
+				nf++
+				key := fmt.Sprintf("%s: %s.%s operand #%d", fname(f), pk, sc.Name(), i+1)
+				okT := haveFmt && verbs != nil && int(i) < len(verbs) && verbs[i] == "T"
+				c.R.Check(okT, "C07-R7", key, c.pos(cl), "a raw script value is only formatted with %T", "a value straight from the script runtime is formatted by walking it: a self-referential script value (var a=[]; a.push(a)) recurses until the stack overflows, which no recover can catch")
+			}
+		})
+	}
+	c.R.Extra["raw_script_values_formatted"] = nf
+}
+
+// fmtVerbs: the verb letters of a format string in operand order; nil when the
+// string uses explicit argument indexes or '*' widths (operand mapping not decided).
+func fmtVerbs(f string) []string {
+	out := []string{}
+	for i := 0; i < len(f); i++ {
+		if f[i] != '%' {
+			continue
+		}
+		i++
+		for i < len(f) && strings.ContainsRune("+-# 0123456789.", rune(f[i])) {
+			i++
+		}
+		if i >= len(f) {
+			break
+		}
+		switch f[i] {
+		case '%':
+			continue
+		case '[', '*':
+			return nil
+		}
+		out = append(out, string(f[i]))
+	}
+	return out
 }
 
 // c07Invariant: C07-R8.
